@@ -46,6 +46,24 @@ def main():
                          clause='%s (uncaught exception of the implementation)' % pid)
             vlib.rm_scratch(scratch)
             sys.exit(ck.finish())
+        # The harness itself failed while READING the implementation's answer (a column that is no longer there, a value
+        # of another type, a table of another length): the answer does not have the shape the property states.  On the
+        # unchanged tree this never happens (the quick and thorough tiers run clean), so it is a verdict as well.  Only
+        # when the deepest harness frame is the property's own module -- a failure inside vlib (model driver, build,
+        # scratch files) stays an infrastructure failure.
+        hdir = os.path.dirname(os.path.abspath(__file__)) + os.sep
+        hframes = [f for f in frames if os.path.realpath(f.filename).startswith(hdir)]
+        if hframes and os.path.basename(hframes[-1].filename) == pid.lower() + '.py' \
+                and isinstance(exc, (KeyError, IndexError, AttributeError, TypeError, ValueError, AssertionError, ZeroDivisionError)) \
+                and st.get('make_ok') and st.get('driver_ok', True):
+            last = hframes[-1]
+            ck.violation('the check could not read the implementation\'s answer: %s: %s at harness/%s:%d (%s); the answer does '
+                         'not have the shape the property states (missing column / other type / other length)'
+                         % (type(exc).__name__, str(exc)[:200], os.path.basename(last.filename), last.lineno, last.name),
+                         {'seed': ck.seed, 'tier': a.tier, 'traceback': traceback.format_exc().splitlines()[-25:]},
+                         clause='%s (answer of unexpected shape)' % pid)
+            vlib.rm_scratch(scratch)
+            sys.exit(ck.finish())
         print('INFRASTRUCTURE FAILURE in the harness for %s (no verdict)' % pid)
         vlib.rm_scratch(scratch)
         sys.exit(2)
